@@ -721,6 +721,17 @@ pub fn hook_link_constraints(constraints: Vec<crate::intermediate::constraints::
     tld.link_constraint_reference(tlds)?;
     match tld { ToplevelDefinition::Type(ToplevelTypeDefinition { ty: ASN1Type::Boolean(b), .. }) => Ok(b.constraints), _ => unreachable!() }
 }
+/// generate one type assignment `T ::= <ty>` (optionally tagged) in a module with the given defaults; returns the bindings text
+#[cfg(not(kani))]
+pub fn hook_generate_type(env: crate::intermediate::TaggingEnvironment, implied: bool, ty: &ASN1Type, tag: Option<AsnTag>) -> Result<String, String> {
+    use crate::generator::Backend;
+    use std::{cell::RefCell, rc::Rc};
+    let h = Rc::new(RefCell::new(ModuleHeader { name: "M".into(), module_identifier: None, encoding_reference_default: None, tagging_environment: env,
+        extensibility_environment: if implied { ExtensibilityEnvironment::Implied } else { ExtensibilityEnvironment::Explicit }, imports: vec![], exports: None }));
+    let tld = ToplevelDefinition::Type(ToplevelTypeDefinition { comments: String::new(), tag, name: "T".into(), ty: ty.clone(), parameterization: None, module_header: Some(h) });
+    let mut backend = crate::generator::rasn::Rasn::default();
+    match backend.generate_module(vec![tld]) { Ok(m) if m.warnings.is_empty() => Ok(m.generated.unwrap_or_default()), Ok(m) => Err(format!("warnings: {:?}", m.warnings.iter().map(|w| w.to_string()).collect::<Vec<_>>())), Err(e) => Err(format!("{e:?}")) }
+}
 /// accessors for the native replay of the Verus unit GEN_emission (token text, white-space as proc_macro2 prints it)
 #[cfg(not(kani))]
 pub fn hook_format_tag(tag: Option<&AsnTag>) -> String { crate::generator::rasn::Rasn::default().format_tag(tag).to_string() }
